@@ -87,6 +87,87 @@ pub fn random_body(prop: &str, rng: &mut Rng) -> Vec<Item> {
     items
 }
 
+/// A C05 body whose labels are all legal: labels get unique names and conditional gotos are inserted
+/// only at places from which the label is a forward/outward target, so that E482 (skipped
+/// declarations) is actually decided by the rule on most random bodies.
+pub fn label_valid_body(rng: &mut Rng) -> Vec<Item> {
+    let mut items: Vec<Item> = random_body("C05", rng).into_iter().filter(|x| !matches!(x.kind.as_str(), "G" | "IG" | "EG" | "EIG")).collect();
+    // an if-part may have lost its goto: drop else-parts that no longer follow an if-part
+    let mut cleaned: Vec<Item> = Vec::new();
+    let mut opens: Vec<String> = Vec::new();
+    let mut last_if = false;
+    let mut skip_depth: Option<usize> = None;
+    for it in items.drain(..) {
+        let k = it.kind.as_str();
+        if let Some(d) = skip_depth {
+            if matches!(k, "O" | "IO" | "EO" | "EIO") { opens.push("skip".to_string()); }
+            if k == "C" { opens.pop(); if opens.len() == d { skip_depth = None; } }
+            continue;
+        }
+        match k {
+            "EO" | "EIO" if !last_if => { skip_depth = Some(opens.len()); opens.push("skip".to_string()); continue; }
+            "O" | "IO" | "EO" | "EIO" => { opens.push(k.to_string()); last_if = false; }
+            "C" => { let o = opens.pop().unwrap_or_default(); last_if = o == "IO" || o == "EIO"; }
+            _ => { last_if = false; }
+        }
+        cleaned.push(it);
+    }
+    let mut items = cleaned;
+    // declarations get fresh names (no E422, so that E482 is decided); uses pick any declared name
+    let mut declared: Vec<String> = Vec::new();
+    for it in items.iter_mut() {
+        if it.kind == "V" {
+            if rng.chance(92) || declared.is_empty() {
+                it.name = format!("v{}", declared.len());
+                declared.push(it.name.clone());
+            } else {
+                it.name = declared[rng.below(declared.len())].clone();
+            }
+        } else if it.kind == "U" && !declared.is_empty() && rng.chance(90) {
+            // mostly recent declarations, so that uses after labels resolve to nearby declarations
+            let k = declared.len();
+            let back = rng.below(k.min(4));
+            it.name = declared[k - 1 - back].clone();
+        }
+    }
+    let mut n = 0;
+    for it in items.iter_mut() {
+        if it.kind == "L" {
+            it.name = format!("l{n}");
+            n += 1;
+        }
+    }
+    // insert gotos, last label first so that earlier positions stay valid
+    for li in (0..n).rev() {
+        let lname = format!("l{li}");
+        let j = items.iter().position(|x| x.kind == "L" && x.name == lname).unwrap();
+        // block of the label: walk back to its opener
+        let mut depth = 0i32;
+        let mut start = 0usize;
+        for i in (0..j).rev() {
+            match items[i].kind.as_str() {
+                "C" => depth += 1,
+                "O" | "IO" | "EO" | "EIO" => {
+                    if depth == 0 { start = i + 1; break; }
+                    depth -= 1;
+                }
+                _ => {}
+            }
+        }
+        let name = items[j].name.clone();
+        let how_many = rng.below(4);
+        let mut spots: Vec<usize> = (0..how_many).map(|_| rng.range(start, j)).collect();
+        spots.sort();
+        spots.dedup();
+        for &sp in spots.iter().rev() {
+            // not between `loop;` and its closing brace
+            if sp > 0 && items[sp - 1].kind == "LP" { continue; }
+            items.insert(sp, Item::new("IG", &name));
+        }
+    }
+    items
+}
+
 fn event_filter(prop: &str, ev: &str) -> bool {
     match prop {
         "C04" => matches!(ev, "lpush" | "lpop" | "ldecl" | "luse"),
@@ -101,7 +182,7 @@ pub fn record_one(prop: &str, seed: u64, i: usize) -> Vec<String> {
     let mut rng = Rng::new(seed, i as u64);
     let (items, consts, params) = match prop {
         "C05" => {
-            let items = random_body(prop, &mut rng);
+            let items = if rng.chance(70) { label_valid_body(&mut rng) } else { random_body(prop, &mut rng) };
             let consts: Vec<String> = if rng.chance(40) { vec![NAMES[rng.below(3)].to_string()] } else { vec![] };
             let mut params: Vec<String> = Vec::new();
             if rng.chance(40) {
